@@ -1077,6 +1077,15 @@ func (e *faultseqEngine) execCase(c fsCfg, faults []Fault, x *X) {
 			return
 		}
 	}
+	// a failure stays where it happened: the same operation on a FRESH object over a healthy medium (another image handle,
+	// another store) gives exactly what it gave before anything failed in this process
+	if len(fired) > 0 {
+		ref2, _, _ := fsBaseline(c)
+		if ref2.Panic != "" || ref2.Failed || !bytes.Equal(ref2.Value, ref.Value) {
+			fail("faultseq.failure_stays_local", "after the failed operation, the same operation on a fresh object with healthy dependencies gives failed=%v err=%q panic=%q value=%s; before the failure it gave %s", ref2.Failed, ref2.Err, ref2.Panic, shortHex(ref2.Value), shortHex(ref.Value))
+			return
+		}
+	}
 }
 
 // fsSite classifies where in the operation the (first) fault landed, in terms
